@@ -34,12 +34,12 @@ Verdict(e) == CASE e.ev = "demux" -> DemuxVerdict(e)
 
 Notes(ln, e) ==
     CASE e.ev = "registry" ->
-            /\ \A i \in DOMAIN e.strategies : e.strategies[i] \in Strategies \/ Note(ln, e.tid, "strategy_not_in_table " \o e.strategies[i])
-            /\ \A t \in Strategies : t \in SeqToSet(e.strategies) \/ Note(ln, e.tid, "table_entry_not_registered " \o t)
+            /\ \A i \in DOMAIN e.strategies : IF e.strategies[i] \in Strategies THEN TRUE ELSE Note(ln, e.tid, "strategy_not_in_table " \o e.strategies[i])
+            /\ \A t \in Strategies : IF t \in SeqToSet(e.strategies) THEN TRUE ELSE Note(ln, e.tid, "table_entry_not_registered " \o t)
       [] e.ev = "summary" ->
             \A i \in DOMAIN e.per :
                 LET p == e.per[i] IN
-                p.accepted > 0 \/ Note(ln, e.tid, (IF p.inj = 0 THEN "unreachable_strategies " ELSE "unreachable_with_injected_whitelist ")
+                IF p.accepted > 0 THEN TRUE ELSE Note(ln, e.tid, (IF p.inj = 0 THEN "unreachable_strategies " ELSE "unreachable_with_injected_whitelist ")
                                                    \o p.s \o "/" \o ToString(p.branch) \o " whitelist=" \o p.wl \o " entries=" \o ToString(p.wl_n))
       [] e.ev = "demux" ->
             IF e.acc /\ ~ InQuantifier(e) THEN Note(ln, e.tid, "outside_quantifier quality>51")
